@@ -10,7 +10,7 @@ from ..refterms import RefModel
 from .c04 import model
 
 PROP = "C06"
-FLOORS = {"C06.R1": 10, "C06.R2": 5, "C06.R3": 3, "C06.R4": 20, "C06.R5": 10}
+FLOORS = {"C06.R1": 10, "C06.R2": 5, "C06.R3": 3, "C06.R4": 20, "C06.R5": 10, "C06.R6": 3}
 META = {
     "explanation": "Equality of refs is by printed form, hashing by a structural tuple. Per class the fields hashed equal the fields "
                    "rendered (plus a type discriminator on both sides) and a hashed field reaches the text untransformed (no sorting, "
@@ -268,3 +268,7 @@ def check(col: Collector):
         shared(col, "C06.R5", [c04.navigation_rules, c01._entry_points],
                why="two references denote the same path iff they were built from the same steps; a step rewritten at "
                    "construction makes different written paths equal or equal written paths different")
+    # references built by the MAD-X front end carry plain string keys (a lark Token key prints differently and compares unequal)
+    from . import c19
+    with col.rule():
+        shared(col, "C06.R6", [c19._plain_names], why="ItemRef(owner, Token('NAME', 'a')) and owner['a'] hash alike but are not equal")
